@@ -402,7 +402,7 @@ pub fn run(cfg: &Config) -> i32 {
             let Some(spec) = specs.iter().find(|s| s.ty == format!("Field{}", f.tag) || s.ty == format!("Field{}NoOption", f.tag)) else { continue };
             let mut rr = Rng::new(0, "c03-subst-cand", fi as u64);
             for c in crate::spec::fieldfmt::candidates(spec, 1, &mut rr, 0) {
-                let structural = matches!(c.class.as_str(), "minimal" | "maximal") || c.class.starts_with("len=min") || c.class.starts_with("len=max,") || c.class == "len=max" || c.class.starts_with("zero=") || c.class.starts_with("date=") || c.class.starts_with("ccy=");
+                let structural = matches!(c.class.as_str(), "minimal" | "maximal") || c.class.starts_with("len=min") || c.class.starts_with("len=max,") || c.class == "len=max" || c.class.starts_with("zero=") || c.class.starts_with("date=") || c.class.starts_with("ccy=") || c.class == "class=blank@last" || c.class == "class=blank@middle";
                 if !structural || c.content.contains('\r') || c.content.lines().any(|x| x.starts_with(':') || x.starts_with('-')) {
                     continue;
                 }
